@@ -50,7 +50,7 @@ Anything unparsable yields `bad-op` (never a default value).
 -/
 open PyCraft PyCraft.Drive
 
-def handlers : List (List String → Option String) := [varint, mchash, position, auth, cfb8, dispatch, negotiate, Drive.frame, trackers, login, play, versions, writers, packets, lifecycle, Drive.layout, Drive.wireReal, Drive.loginwire, Drive.hswire, Drive.playwire, Drive.sessionwire, Drive.c03nominal, Drive.c04codec, Drive.c01dispatch, Drive.roles, Drive.c12progress, Drive.playerr, Drive.c16ends, Drive.c06dispatch, Drive.c15thread, Drive.c20maps, Drive.c10inbound, Drive.nbt, Drive.c20live, Drive.c02exact, Drive.c14compose, Drive.vprofile, Drive.c09status, Drive.c17utf8, Drive.c05dispatch, Drive.c18keys, Drive.verref, Drive.c19seq, Drive.c16carry, Drive.c09clock, Drive.pbuf]
+def handlers : List (List String → Option String) := [varint, mchash, position, auth, cfb8, dispatch, negotiate, Drive.frame, trackers, login, play, versions, writers, packets, lifecycle, Drive.layout, Drive.wireReal, Drive.loginwire, Drive.hswire, Drive.playwire, Drive.sessionwire, Drive.c03nominal, Drive.c04codec, Drive.c01dispatch, Drive.roles, Drive.c12progress, Drive.playerr, Drive.c16ends, Drive.c06dispatch, Drive.c15thread, Drive.c20maps, Drive.c10inbound, Drive.nbt, Drive.c20live, Drive.c02exact, Drive.c14compose, Drive.vprofile, Drive.c09status, Drive.c17utf8, Drive.c05dispatch, Drive.c18keys, Drive.verref, Drive.c19seq, Drive.c16carry, Drive.c09clock, Drive.pbuf, Drive.pbufRp]
 
 def handle (toks : List String) : String :=
   match handlers.findSome? (· toks) with
